@@ -1,17 +1,9 @@
-import MsqProofs.Lemmas.LineageLevel
+import MsqProofs.Lemmas.LineageSetStar
 /-!
 # Lineage: the level of a set operation (UNION …) against the column-wise specification
 -/
 namespace LineageL
 open Ast AN LN Spec Flow
-
-theorem curOf_eq : ∀ (its : List (Expr × Option String)) (i : Nat), Flow.curOf its i = C16.curOf its i
-  | [], _ => rfl
-  | it :: r, i => by simp [Flow.curOf, C16.curOf, curOf_eq r]
-
-theorem curFlow_eq (scope : Scope) : ∀ cur : List (SCol × List QCol), Flow.curFlow scope cur = curSpec scope cur
-  | [] => rfl
-  | (c, qs) :: r => by simp [Flow.curFlow, curSpec, curFlow_eq scope r]
 
 /-! ### shapes -/
 
@@ -81,42 +73,6 @@ theorem shape_lateral {q : Query} {ws : List WithTable} (h : shape q = some ws) 
             exact ih hr.2
         exact this us hall.2
       · simp at h
-
-/-! ### positions -/
-
-/-- consecutive positions from `i` -/
-def Seq : List SCol → Nat → Prop
-  | [], _ => True
-  | c :: r, i => c.idx = Int.ofNat i ∧ Seq r (i + 1)
-
-theorem seq_curOf : ∀ (its : List (Expr × Option String)) (i : Nat), Seq ((C16.curOf its i).map (·.1)) i
-  | [], _ => trivial
-  | it :: r, i => ⟨rfl, seq_curOf r (i + 1)⟩
-
-theorem number_of_seq : ∀ (data : List (SCol × List SrcCol)) (i : Nat), Seq (data.map (·.1)) i →
-    C16.number (data.map fun p => (p.1.name, p.2)) i = data
-  | [], _, _ => rfl
-  | (c, s) :: r, i, h => by
-    obtain ⟨h1, h2⟩ := h
-    simp only [List.map_cons, C16.number, number_of_seq r (i + 1) h2]
-    congr 1
-    cases c; simp_all
-
-theorem curSpec_fst (scope : Scope) : ∀ (cur : List (SCol × List QCol)) (data : List (SCol × List SrcCol)),
-    curSpec scope cur = .ok data → data.map (·.1) = cur.map (·.1)
-  | [], data, h => by simp [curSpec] at h; subst h; rfl
-  | (c, qs) :: r, data, h => by
-    simp only [curSpec, bind, Except.bind] at h
-    cases h1 : refs scope qs with
-    | error e => simp [h1] at h
-    | ok a =>
-      simp only [h1] at h
-      cases h2 : curSpec scope r with
-      | error e => simp [h2] at h
-      | ok b =>
-        simp [h2, pure, Except.pure] at h
-        subst h
-        simp [curSpec_fst scope r b h2]
 
 theorem zipWith_fst {α β γ : Type} (f : α × β → α × γ → β) : ∀ (a : List (α × β)) (b : List (α × γ)), a.length = b.length →
     (List.zipWith (fun x y => (x.1, f x y)) a b).map (·.1) = a.map (·.1)
@@ -195,11 +151,17 @@ theorem currentLevel_union (cat : Cat) (tn : List (String × StdTable)) (st : St
 
 /-- **the level of a query — one SELECT or a set operation — against its specification** -/
 theorem level_generic {cat : Cat} {st : St} {tn : List (String × StdTable)} {scope : Scope} (hres : Resolves cat st tn scope)
-    (q : Query) (st1 : St) (hs : Same st st1) :
+    (q : Query) (hpk : (levelFromTables q).all plainKey = true → ∀ p ∈ tn, p.2.2 = p.1) (st1 : St) (hs : Same st st1) :
     Agrees st ((levelFlow q scope).map (fun R => C16.number R 1))
       (do let (cur, st2) ← currentLevel cat tn q st1; sourcesLoop cat tn [] cur st2) := by
   cases q with
-  | single s => exact level_spec hres (Select.cols s) st1 hs
+  | single s =>
+    simp only [levelFlow]
+    by_cases hstar : (Select.cols s).any isStar = true
+    · simp only [hstar, if_true]
+      exact level_star hres _ hpk (Select.cols s) st1 hs
+    · simp only [hstar, Bool.false_eq_true, if_false]
+      exact level_spec hres (Select.cols s) st1 hs
   | union ws s us =>
     simp only [levelFlow]
     by_cases hall : (s :: us.map (·.2)).all branchOK = true
